@@ -89,7 +89,20 @@ async def run_history(loop: vclock.VLoop, hist: dict) -> dict:
                 before = engine_state(gwy)
                 rec: dict[str, Any] = {"at": i, "kind": op["kind"], "raised": None}
                 try:
-                    if op["kind"] == "snapshot":
+                    if op["kind"] == "snapshot-during-restore":
+                        # an overlapping call: a snapshot is attempted while a restore is still in progress
+                        schema, pkts = gwy.get_state(include_expired=True)
+                        task = loop.create_task(gwy._restore_cached_packets(pkts))
+                        for _ in range(op.get("hops", 3)):
+                            await asyncio.sleep(0)
+                        try:
+                            gwy.get_state()
+                            rec["overlap"] = "accepted"
+                        except RuntimeError as e:
+                            rec["overlap"] = f"refused: {e}"[:80]
+                        await task
+                        rec["n_pkts"] = len(pkts)
+                    elif op["kind"] == "snapshot":
                         schema, pkts = gwy.get_state(include_expired=op.get("include_expired", False))
                         rec["n_pkts"] = len(pkts)
                         json.dumps(schema)
